@@ -182,17 +182,29 @@ func c16NewAPI(tr http.RoundTripper) (*OpenAPI, error) {
 	}, nil
 }
 
-// c16Call invokes the OpenAPI method for p (variant selects the "2" flavour where one
-// exists) with freshly built options.
-func c16Call(ctx context.Context, api *OpenAPI, p c16Param, variant int, steps int, seed uint32) error {
+// c16Call invokes the OpenAPI method for p with freshly built options.  variant selects
+// the "2" flavour of the assign methods and, for creates, the backend-dispatching
+// CreateNetworkInterfaceV2 entry point the controllers use; split makes a create pass
+// the caller's shared leading option plus a fresh one.
+func c16Call(ctx context.Context, api *OpenAPI, cl *c16Caller, split bool, p c16Param, variant int, steps int, seed uint32) error {
 	nio := c16NIO(p, seed)
 	bo := &wait.Backoff{Steps: steps} // zero Duration: retries are immediate
 	var err error
 	switch p.Kind {
 	case c16CreateECS:
-		_, err = api.CreateNetworkInterface(ctx, &CreateNetworkInterfaceOptions{NetworkInterfaceOptions: nio, Backoff: bo})
+		opts := c16CreateOpts(cl, split, p, seed, bo)
+		if variant%2 == 0 {
+			_, err = api.CreateNetworkInterface(ctx, opts...)
+		} else {
+			_, err = api.CreateNetworkInterfaceV2(SetBackendAPI(ctx, BackendAPIECS), opts...)
+		}
 	case c16CreateEFLO:
-		_, err = api.CreateElasticNetworkInterfaceV2(ctx, &CreateNetworkInterfaceOptions{NetworkInterfaceOptions: nio, Backoff: bo})
+		opts := c16CreateOpts(cl, split, p, seed, bo)
+		if variant%2 == 0 {
+			_, err = api.CreateElasticNetworkInterfaceV2(ctx, opts...)
+		} else {
+			_, err = api.CreateNetworkInterfaceV2(SetBackendAPI(ctx, BackendAPIEFLO), opts...)
+		}
 	case c16Assign4ECS:
 		if variant%2 == 0 {
 			_, err = api.AssignPrivateIPAddress(ctx, &AssignPrivateIPAddressOptions{NetworkInterfaceOptions: nio, Backoff: bo})
@@ -215,7 +227,7 @@ var c16Actions = [...]string{"CreateNetworkInterface", "CreateElasticNetworkInte
 
 type c16WireReq struct {
 	P       int `json:"p"`       // index into the pool
-	Variant int `json:"variant"` // 0: AssignPrivateIPAddress/AssignIpv6Addresses, 1: the "2" flavour
+	Variant int `json:"variant"` // 0: AssignPrivateIPAddress/AssignIpv6Addresses/Create*, 1: the "2" flavour / CreateNetworkInterfaceV2
 	Steps   int `json:"steps"`   // Backoff.Steps of every call of this logical request
 }
 
@@ -223,7 +235,18 @@ type c16WireStep struct {
 	J    int    `json:"j"`              // k mod (logical requests not finished)
 	Out  int    `json:"out"`            // outcome delivered if the request waits in the transport
 	Seed uint32 `json:"seed,omitempty"` // tag insertion order if a new call is started
+	// attributes of the call if this step starts one
+	Split bool `json:"split,omitempty"` // create: shared leading option + fresh option
+	Ctx   int  `json:"ctx,omitempty"`   // 0 live context, 1 already cancelled, 2 deadline already passed
+	// if this step answers a waiting attempt: cancel the call's context first
+	Cancel bool `json:"cancel,omitempty"`
 }
+
+const (
+	c16CtxLive = iota
+	c16CtxCancelled
+	c16CtxExpired
+)
 
 type c16WireScenario struct {
 	Pool  []c16Param    `json:"pool"`
@@ -245,6 +268,11 @@ func c16GenWire(t *rapid.T) c16WireScenario {
 	ns := rapid.IntRange(2, vt.Scale(40, 100)).Draw(t, "nsteps")
 	for i := 0; i < ns; i++ {
 		st := c16WireStep{J: rapid.IntRange(0, 7).Draw(t, "j"), Seed: rapid.Uint32().Draw(t, "seed")}
+		st.Split = rapid.IntRange(0, 2).Draw(t, "split") == 2
+		if rapid.IntRange(0, 5).Draw(t, "deadctx") == 5 {
+			st.Ctx = rapid.IntRange(c16CtxCancelled, c16CtxExpired).Draw(t, "ctx")
+		}
+		st.Cancel = rapid.IntRange(0, 7).Draw(t, "cancel") == 7
 		if rapid.IntRange(0, 9).Draw(t, "fails") < 7 {
 			st.Out = rapid.IntRange(1, c16Outs-1).Draw(t, "out")
 		}
@@ -265,6 +293,8 @@ type c16Logical struct {
 	tok      string      // token of the running call
 	cur      *c16Attempt // attempt waiting in the transport
 	ret      chan error  // result of the running call
+	dead     bool        // the running call was started with a context that is already over
+	cancel   func()      // cancels the running call's context
 	calls    int         // calls made so far
 	attempts int         // HTTP attempts of the running call
 }
@@ -290,6 +320,7 @@ func c16RunWire(c *vt.Ctx, s c16WireScenario) {
 		case <-time.After(c16WaitLimit):
 		}
 	}()
+	cl := c16NewCaller()
 	ctx, cancel := context.WithCancel(context.Background())
 	defer cancel()
 
@@ -297,7 +328,7 @@ func c16RunWire(c *vt.Ctx, s c16WireScenario) {
 	for i, r := range s.Reqs {
 		reqs[i] = &c16Logical{req: r}
 	}
-	sawInternalRetry, sawOverlap, sawCallerRetry := false, false, false
+	sawInternalRetry, sawOverlap, sawCallerRetry, sawSplit, sawAborted, sawAbortedRetry, sawMidCancel := false, false, false, false, false, false, false
 
 	// await: the one goroutine that may run (request id) either reaches the transport
 	// again or its call returns.
@@ -330,6 +361,19 @@ func c16RunWire(c *vt.Ctx, s c16WireScenario) {
 		case err := <-l.ret:
 			l.cur = nil
 			if l.attempts == 0 {
+				if l.dead && err != nil {
+					// aborted on the client side before anything was sent: nothing to observe
+					// now; whatever token the builder took for it must be back in place, which
+					// the next attempts with these parameters show.
+					c.Trace("request %d call %d aborted before send: %v", id, l.calls, err)
+					sawAborted = true
+					if len(m.returned[p.key()]) > 0 {
+						sawAbortedRetry = true
+					}
+					m.aborted(p)
+					l.state = c16Idle
+					return
+				}
 				c.Inconclusive(fmt.Sprintf("%s call returned (%v) without reaching the wire", c16KindNames[p.Kind], err))
 			}
 			if err != nil {
@@ -345,23 +389,45 @@ func c16RunWire(c *vt.Ctx, s c16WireScenario) {
 			c.Inconclusive("call neither reached the transport nor returned in time")
 		}
 	}
-	start := func(id int, l *c16Logical, seed uint32) {
+	start := func(id int, l *c16Logical, seed uint32, split bool, ctxKind int) {
 		p := s.Pool[l.req.P%len(s.Pool)]
 		if l.calls > 0 {
 			sawCallerRetry = true
+		}
+		if split && p.Kind <= c16CreateEFLO {
+			sawSplit = true
 		}
 		l.calls++
 		l.attempts = 0
 		l.ret = make(chan error, 1)
 		ret := l.ret
+		var cctx context.Context
+		switch ctxKind {
+		case c16CtxExpired:
+			cctx, l.cancel = context.WithDeadline(ctx, time.Unix(0, 0))
+		default:
+			cctx, l.cancel = context.WithCancel(ctx)
+		}
+		l.dead = ctxKind != c16CtxLive
+		if ctxKind == c16CtxCancelled {
+			l.cancel()
+		}
+		if l.dead {
+			c.Trace("request %d call %d starts with a context that is already over (%v)", id, l.calls, cctx.Err())
+		}
 		wg.Add(1)
 		go func() {
 			defer wg.Done()
-			ret <- c16Call(ctx, api, p, l.req.Variant, l.req.Steps, seed)
+			ret <- c16Call(cctx, api, cl, split, p, l.req.Variant, l.req.Steps, seed)
 		}()
 		await(id, l)
 	}
-	answer := func(id int, l *c16Logical, out int) {
+	answer := func(id int, l *c16Logical, out int, cancelFirst bool) {
+		if cancelFirst {
+			c.Trace("request %d call %d: context cancelled while attempt %d waits", id, l.calls, l.attempts)
+			sawMidCancel = true
+			l.cancel()
+		}
 		c.Trace("request %d call %d attempt %d <- %s", id, l.calls, l.attempts, c16OutNames[out])
 		l.cur.reply <- out
 		l.cur = nil
@@ -381,9 +447,9 @@ func c16RunWire(c *vt.Ctx, s c16WireScenario) {
 		id := live[st.J%len(live)]
 		l := reqs[id]
 		if l.state == c16Idle {
-			start(id, l, st.Seed)
+			start(id, l, st.Seed, st.Split, st.Ctx)
 		} else {
-			answer(id, l, st.Out%c16Outs)
+			answer(id, l, st.Out%c16Outs, st.Cancel)
 		}
 	}
 	// drain: every logical request is driven to success
@@ -393,9 +459,9 @@ func c16RunWire(c *vt.Ctx, s c16WireScenario) {
 				c.Inconclusive("a request does not finish although every attempt is answered with success")
 			}
 			if l.state == c16Idle {
-				start(id, l, uint32(id))
+				start(id, l, uint32(id), id%2 == 1, c16CtxLive)
 			} else {
-				answer(id, l, c16OutOK)
+				answer(id, l, c16OutOK, false)
 			}
 		}
 	}
@@ -410,6 +476,18 @@ func c16RunWire(c *vt.Ctx, s c16WireScenario) {
 	}
 	if sawOverlap {
 		c.Label("calls overlapping on the wire")
+	}
+	if sawSplit {
+		c.Label("create from shared leading option + fresh option")
+	}
+	if sawAborted {
+		c.Label("call aborted before send (context already over)")
+	}
+	if sawAbortedRetry {
+		c.Label("retry aborted before send while a failed attempt's token is parked")
+	}
+	if sawMidCancel {
+		c.Label("context cancelled mid-call")
 	}
 	m.labels(c)
 }
